@@ -37,7 +37,10 @@ Join(ss, sep) == IF ss = <<>> THEN "" ELSE IF Len(ss) = 1 THEN ss[1] ELSE ss[1] 
 \* hosts: <<text before the macro, text after it on the same line, is an expression host>>
 Hosts == << <<"", "">>, <<"r = ", "">>, <<"g(", ", 2)">>, <<"[", "][0]">>, <<"", "; w = 3">>, <<"x = 1; ", "">>,
             <<"if c: ", "">>, <<"q = 1 + ", " + 2">> >>
-Followers == <<"", "y = 1\n", "def h():\n    return [1,\n        2]\n", "z = $(ls)\n">>
+\* 5-7: the follower is itself a macro ("code following a macro is unaffected" includes the next macro: it must receive
+\* its own text and nothing of the one before)
+Followers == <<"", "y = 1\n", "def h():\n    return [1,\n        2]\n", "z = $(ls)\n",
+               "with! c2:\n    q r\n    s\n", "g!(u, v w)\n", "with! c3: t u\n">>
 
 VARIABLES args, done, host, fol, trail
 vars == <<args, done, host, fol, trail>>
@@ -81,6 +84,7 @@ IsCode(ln) == ln[2] # "" /\ ln[2] # "# c"
 RECURSIVE LastCodeLevel(_)
 LastCodeLevel(ls) == IF ls = <<>> THEN 0 ELSE IF IsCode(ls[Len(ls)]) THEN ls[Len(ls)][1] ELSE LastCodeLevel(SubSeq(ls, 1, Len(ls) - 1))
 WithInit == lines = <<>> /\ done = FALSE /\ unit \in 1..Len(Units) /\ outer \in 1..Len(Outer) /\ fol \in FolUse
+            /\ (outer = 1 \/ fol \notin {3, 5})      \* multi-line followers are written for the top level
 WithNext ==
   /\ ~done
   /\ \/ /\ Len(lines) < MaxLines
@@ -100,7 +104,7 @@ WithSrc ==
 WithCase == [kind |-> "with", src |-> WithSrc, want |-> <<Cat([i \in 1..Len(lines) |-> LineWant(lines[i], Units[unit])])>>,
              follower |-> Followers[fol], host |-> outer]
 OneLiners == { [kind |-> "with1", src |-> "with! ctx:" \o t \o "\n" \o Followers[f], want |-> <<t \o "\n">>, follower |-> Followers[f], host |-> 1]
-               : t \in {" one liner  ", "x", " a; b ", " $(ls) 'q'  # c", " [1, 2] if z"}, f \in {1, 2} }
+               : t \in {" one liner  ", "x", " a; b ", " $(ls) 'q'  # c", " [1, 2] if z"}, f \in {1, 2, 5, 7} }
 
 \* ---------------------------------------------------------------- dispatch
 Init == IF Kind = "call" THEN CallInit /\ lines = <<>> /\ unit = 1 /\ outer = 1
